@@ -66,8 +66,9 @@ Out(txt, sev, dups, lines) ==
           /\ pending' = [pending EXCEPT ![p] = SubSeq(@, dups + 2, Len(@))]
     /\ UNCHANGED <<np, global, pkgOn, pkgLv, shut>>
 
-ShutCall == shut = "no" /\ shut' = "called" /\ UNCHANGED <<np, pending, global, pkgOn, pkgLv>>
+\* (Shutdown may be called by several goroutines: every one of the calls returns only after everything is written)
+ShutCall == shut' = (IF shut = "returned" THEN "returned" ELSE "called") /\ UNCHANGED <<np, pending, global, pkgOn, pkgLv>>
 \* Shutdown returns only after everything logged before it has been written
-ShutRet == /\ shut = "called" /\ \A p \in 1..np : pending[p] = <<>>
+ShutRet == /\ shut \in {"called", "returned"} /\ \A p \in 1..np : pending[p] = <<>>
            /\ shut' = "returned" /\ UNCHANGED <<np, pending, global, pkgOn, pkgLv>>
 ====
